@@ -160,9 +160,24 @@ def run_check(pid, tier, seed):
     for i in range(0, len(clines), CH):
         model += proto.run_model(clines[i:i + CH])
     disagreements = []
+    float_tie = None
     for l, a, b in zip(clines, cimpl, model):
+        if l.startswith("capf "):
+            # the double-precision model (Model/CapacityF.lean) is a SECOND, stricter tie (bit for bit) next to the `cap`
+            # correspondence with the exact-rational model; like the translation tie it never decides a verdict: a rewrite
+            # that reorders floating-point operations keeps C17 and breaks only this. Recorded in the evidence.
+            if float_tie is None:
+                float_tie = {"model": "DswModel.Model.CapacityF (theorems Props/C17c.lean)", "lines": 0, "status": "holds"}
+            float_tie["lines"] += 1
+            if not core.same(l, a, b) and float_tie["status"] == "holds":
+                float_tie.update(status="broken", first_disagreement={"line": l[:400], "implementation": a[:300],
+                                                                        "model_after_log2": (core.canon_capf(b) if b.startswith("ok") else b)[:300]})
+            continue
         if not core.same(l, a, b):
             disagreements.append({"line": l, "implementation": a, "model": b})
+    if float_tie and float_tie["status"] == "broken":
+        print("note: the double-precision model of approximate_capacity no longer agrees bit for bit with the code "
+              "(theorems of Props/C17c.lean are not tied on this run) - the exact-rational correspondence decides")
     # C20: a call inside a history that disagrees with the stateless model is re-run ALONE in a fresh interpreter; if it
     # agrees with the model there, the result depends on what was called before - a failing input of C20 itself
     if pid == "C20" and disagreements:
@@ -245,6 +260,7 @@ def run_check(pid, tier, seed):
             "direct_sweep_failures": len(m["failures"]), "known_findings_hit": sorted(seen_known),
             "changed_functions_since_validation": changed,
             **({"translation_tie": tie_state} if tie_state else {}),
+            **({"double_precision_tie": float_tie} if float_tie else {}),
             "implementation_line_coverage": function_line_coverage(m["lines_hit"]),
         },
         "assumptions": registry.ASSUMPTIONS + spec.get("assumptions", []),
